@@ -50,7 +50,16 @@ void gen_string(Rng& r, std::vector<int64_t>& s, int alpha, int maxlen) {
     for (int i = 0; i < len; ++i) s.push_back(1 + int64_t(r.below(uint64_t(alpha))));
 }
 
+enum { C_BIG_N = 2, C_BIG_SEED = 3, C_BIG_SHAPE = 4 };
+
 void generate(Rng& r, Workload& w, int tier) {
+    if (tier && r.chance(1, 40000)) {
+        // thorough tier only: the real default thresholds (1 Mi strings) reach the parallel
+        // big step, nested (flipped) steps and -- with one worker -- the sequential sample sort.
+        // The strings are generated from (seed, shape) inside execute(), not listed as ops.
+        w.cfg = {int64_t(16 + r.below(3)), int64_t(r.below(2)), int64_t(r.range(1050000, 1300000)), int64_t(r.next() >> 2), int64_t(r.below(3))};
+        return;
+    }
     int v = int(r.below(NVAR));
     w.cfg = {v, int64_t(r.below(2))};
     const bool suffix = VARIANTS[v].set == c04::SK_SUFFIX;
@@ -132,6 +141,24 @@ void execute(const Workload& w, Result& res) {
     const Variant var = VARIANTS[vi];
     const bool lcp = sim::modn(sim::cfg_at(w, C_LCP), 2) == 1;
     c04::Input in;
+    const int64_t big_n = sim::cfg_at(w, C_BIG_N);
+    if (big_n > 0) {
+        Rng g(uint64_t(sim::cfg_at(w, C_BIG_SEED)));
+        const int shape = int(sim::modn(sim::cfg_at(w, C_BIG_SHAPE), 3));
+        std::string prefix;
+        for (int i = 0; i < 8 + int(g.below(17)); ++i) prefix.push_back(char('a' + g.below(2)));
+        std::vector<std::string> pool;
+        for (int i = 0; i < 1000; ++i) { std::string t; for (int k = int(g.below(20)); k > 0; --k) t.push_back(char('a' + g.below(3))); pool.push_back(t); }
+        in.strings.reserve(size_t(big_n));
+        for (int64_t i = 0; i < big_n && i < 1500000; ++i) {
+            std::string t;
+            if (shape == 0) { for (int k = int(g.below(17)); k > 0; --k) t.push_back(char('a' + g.below(4))); }
+            else if (shape == 1) { t = prefix; for (int k = int(g.below(9)); k > 0; --k) t.push_back(char('a' + g.below(2))); }
+            else t = pool[g.below(1000)];
+            in.strings.push_back(std::move(t));
+        }
+        res.probe("big_default_threshold_run");
+    }
     for (auto& op : w.ops) {
         std::string s;
         for (int64_t b : op) s.push_back(char(1 + sim::modn(b - 1, 255)));
